@@ -86,6 +86,20 @@ func (p *poller) addConn(c *Conn) error {
 		_ = c.closeWithError(err)
 		return err
 	}
+	// Stop waits for the connections that have been counted as open. The open
+	// handler below counts this one: that must not happen while Stop is
+	// waiting already, so the connection is refused when Stop has begun, else
+	// Stop is kept waiting until this call is through.
+	p.g.mux.Lock()
+	if p.g.shutdown {
+		p.g.mux.Unlock()
+		err := errors.New("engine stopped")
+		_ = c.closeWithError(err)
+		return err
+	}
+	p.g.wgConn.Add(1)
+	p.g.mux.Unlock()
+	defer p.g.wgConn.Done()
 	// a connection closed by its owner before it is added is refused, nothing
 	// has been announced for it; one closed from now on has its poller set
 	// and gets its close notification.
